@@ -292,7 +292,7 @@ def _interpret(res, text, c):
         # timing info by suffix
         for name, fb in fn_break.items():
             short = name.split("::", 1)[1] if "::" in name else name
-            if short == r.id or short.endswith("::" + r.id.split("::")[-1]) and _impl_match(short, r.id):
+            if short == r.id or _name_match(short, r):
                 ob["ms"] = fb.get("time")
                 ob["rlimit"] = fb.get("rlimit")
                 ob["smt_success"] = fb.get("success")
@@ -334,6 +334,22 @@ def _interpret(res, text, c):
         res.status = "undecided"
         res.reason = "verus reported %d errors that could not be attributed: %s" % (
             res.errors, "; ".join(d.get("message", "")[:160] for d in other[:3]))
+
+
+def _name_match(short, r):
+    """breakdown name (crate-relative, e.g. `Rational::new`, `serialize`, `impl&%3::clone`) vs an emitted function"""
+    a = short.split("::")
+    fn = getattr(r, "fn_name", r.id.split("::")[-1])
+    if a[-1] != fn:
+        return False
+    hdr = getattr(r, "impl_hdr", "")
+    if not hdr:
+        return len(a) == 1
+    if len(a) < 2:
+        return False
+    ty = re.sub(r"^impl(<[^>]*>)?\s+", "", hdr).split(" for ")[-1]
+    ty = re.sub(r"<.*>", "", ty).strip()
+    return a[-2] == ty or a[-2].startswith("impl&%")
 
 
 def _impl_match(short, rid):
